@@ -68,6 +68,12 @@ fn key_pool(rng: &mut Rng) -> String {
 	// boosted: U+E000..U+FFFF versus supplementary planes, prefixes, empty
 	let c = |x: u32| char::from_u32(x).unwrap();
 	let mut s = String::new();
+	if rng.chance(1, 6) {
+		// supplementary characters sharing a high surrogate (or not), followed by a tail that orders the other way
+		s.push(c([0x1f600, 0x1f601, 0x10000, 0x10001, 0x10ffff, 0xffff, 0xe000][rng.below(7)]));
+		s.push(['a', 'b', '\u{e000}', '\u{10000}'][rng.below(4)]);
+		return s;
+	}
 	for _ in 0..rng.below(4) {
 		s.push(match rng.below(9) {
 			0 => c(0xe000 + rng.below(0x1fff) as u32),
